@@ -225,6 +225,14 @@ C10ok(sc, h, s, tau) == sc.lazy =>
        /\ \A d \in h.dem[c.dst] : ~TLess(d, lim)
        /\ h.infl[c.dst] = None \/ ~TLess(h.infl[c.dst], lim)
 
+\* C10, producer form ("producers never run more than one step ahead of their direct consumers"): the producer
+\* waited until the consumer's PROGRESS had reached its step time, and progress accounts for every step the
+\* consumer's ancestors can still cause - so once a producer has begun a step at tp, none of its consumers
+\* begins a step earlier than tp (adapted to the consumer's tiers) any more
+C10prod(sc, h, s, tau) == sc.lazy =>
+  \A i \in CIdx(sc) : LET c == Conn(sc, i) IN (c.dst = s /\ c.src # s) =>
+     (h.lastd[c.src] = None \/ ~TLess(tau, Apply(h.lastd[c.src], AdaptIv(sc, c.src, s))))
+
 OverLoop(sc, tau) == \E i \in 2..Len(tau) : tau[i] >= sc.maxloop
 
 ----------------------------------------------------------------------------
@@ -255,6 +263,7 @@ RefSB(sc, h, ev) ==
         \o Cond(C16order(sc, h, s, tau), "C16_async_order", <<s, tau, h.infl>>)
         \o Cond(~DataOn(sc) \/ C16deliv(sc, h, s, tau, inp), "C16_set_data_not_delivered_exactly_once_in_next_step", <<s, tau, inp, SetdFor(h, s)>>)
         \o Cond(C10ok(sc, h, s, tau), "C10_lazy", <<s, tau, h.dem, h.infl>>)
+        \o Cond(C10prod(sc, h, s, tau), "C10_consumer_steps_in_the_past_of_a_producer_that_ran_ahead", <<s, tau, h.lastd>>)
         \o Cond(~OverLoop(sc, tau), "C09_substep_beyond_bound_executed", <<s, tau>>)
         \o Cond(h.mal = None \/ h.mal[1] # s, "C13_step_after_malformed_reply", <<s, t, h.mal>>)
         \* C17: a step for time t never begins before K*(t-1) wall-clock ticks after the start
